@@ -13,11 +13,11 @@ from ..oracles import ts72
 from .common import need_func, need_class, methods
 
 LEVEL = 'other'
-TECHNIQUE = 'typestate over a statement CFG with exceptional edges (in-place scaling must be undone on every exit, may-raise classification from Cython noexcept facts); bounds of every access to a fixed-size C array by abstract interpretation of the kernels plus interval analysis of the solver indices; dominance of data accessors by the success flag; loop-progress lint; dispatch totality by partial evaluation'
+TECHNIQUE = 'typestate over a statement CFG with exceptional edges (in-place scaling must be undone on every exit, may-raise classification from Cython noexcept facts); bounds of every access to a fixed-size C array by abstract interpretation of the kernels plus interval analysis of the solver indices; dominance of data accessors by the success flag; loop-progress lint; dispatch totality by partial evaluation; LAPACK status def-use discipline; length guards before raw pointers; whole-function symbolic execution of cf_radial_solver logging every out-of-extent access and comparing the five input arrays on normal, failing and raising exits'
 LEVEL_TEXT = ('Crashes and hangs inside CyRK/LAPACK are out of reach. Decided: every exit of cf_radial_solver after the in-place non-dimensionalisation passes the restoring call (normal, explicit raise, and statements that may raise Python exceptions); '
               'no access to a stack array is outside its declared extent for any layer-kind combination; numeric accessors are dominated by `success`; `success` is set only on the error-free path; loops make progress; every assumption combination reaches a handler or a raise.')
 LEVEL_NOTE = ('Trusted: Cython-subset front-end incl. recorded array extents and noexcept qualifiers, CFG builder, interval rules. Restoration to "a few ulp" (x c then / c) is arithmetic, not decided. Memory leaks are outside the property.')
-EXPLANATION = 'R06.1 restore typestate; R06.2 fixed-size buffers; R06.3 success protocol; R06.4 totality of dispatch and loop progress.'
+EXPLANATION = 'R06.1 restore typestate; R06.2 fixed-size buffers; R06.3 success protocol; R06.4 totality of dispatch and loop progress; R06.5 LAPACK status read before reuse and before success; R06.6 array lengths checked before pointers are taken; R06.1/R06.2 additionally on the executed driver (inputs intact on every exit kind, every access within its extent).'
 
 PY_OBJECT_TYPES = ('str', 'tuple', 'list', 'dict', 'object', 'bytes')
 C_PURE = {'range', 'len', 'print', 'min', 'max', 'abs', 'int', 'float', 'isnan', 'isinf', 'isfinite', 'fabs', 'sqrt', 'cbrt', 'sin', 'cos', 'exp', 'log', 'sizeof', 'floor', 'ceil', 'pow', 'copysign', 'signbit', 'hypot', 'atan2', 'PyMem_Free', 'free',
